@@ -103,6 +103,7 @@ exec_nn(const vcase *vc, int tr, int pr)
 		}
 	}
 	bool connected = tr == T_SOCKET;
+	bool tiny_frames = false;
 	nng_dialer d;
 	auto ensure_connected = [&]() {
 		if (!connected) {
@@ -173,6 +174,8 @@ exec_nn(const vcase *vc, int tr, int pr)
 			if (tr == T_WS && !connected) {
 				size_t v = (size_t) vop_arg(o, 0, 0);
 				nng_listener_set_size(l[0], NNG_OPT_WS_SENDMAXFRAME, v);
+				if (v > 0 && v < 100)
+					tiny_frames = true; // one frame per byte or two: keep messages small or the case takes minutes
 				vr_tagf("wsmax");
 			}
 		} else if (n == "premsg") { // queue a message on the listening side before anybody connects: it is written the
@@ -182,6 +185,8 @@ exec_nn(const vcase *vc, int tr, int pr)
 			size_t sz = (size_t) vop_arg(o, 0, 0);
 			if (sz > 300000)
 				sz = 300000;
+			if (tiny_frames && sz > 3000)
+				sz = 3000;
 			Sent e;
 			e.body = payload((uint32_t) vop_arg(o, 1, 1) + nsent, sz);
 			nng_msg *m;
@@ -202,6 +207,8 @@ exec_nn(const vcase *vc, int tr, int pr)
 			size_t sz  = (size_t) vop_arg(o, 1, 0);
 			if (sz > 300000)
 				sz = 300000;
+			if (tiny_frames && sz > 3000)
+				sz = 3000;
 			io_rearm();
 			if (pr == P_XREQREP)
 				dir = 0; // requests only (replies need routing state)
